@@ -42,6 +42,12 @@ class UidLog:
         self.uidnext: dict[tuple[int, int], list[tuple[int, int, int]]] = {}
         self.last_validity: dict[int, int] = {}
         self.counters: dict[str, int] = {}
+        # external deliveries (a file dropped into new/): (name, cid, step)
+        self.deliveries: list[tuple[bytes, bytes, int]] = []
+        # acknowledged removals: (lineage, validity) -> [(uid, end step)]
+        self.removed: dict[tuple[int, int], list[tuple[int, int]]] = {}
+        # (lineage, validity) -> [(uid, step the selection began, dump step)]
+        self.fresh_seen: dict[tuple[int, int], list[tuple[int, int, int]]] = {}
 
     def count(self, k: str, n: int = 1) -> None:
         self.counters[k] = self.counters.get(k, 0) + n
@@ -80,8 +86,46 @@ class UidLog:
             (start, end, uidnext))
         self.count('uidnext_recorded')
 
+    def add_removed(self, name: bytes, validity: int, uid: int,
+                    end: int) -> None:
+        self.removed.setdefault((self.lin(name), validity), []).append(
+            (uid, end))
+
     def check(self) -> None:
         rep = self.hist.report
+        # a UID whose removal was acknowledged must never be seen again
+        # (only dumps of selections that began after the removal count: a
+        # session that has not been told yet may still be shown the message)
+        for key, gone in self.removed.items():
+            for uid, end in gone:
+                for u2, sel_step, st in self.fresh_seen.get(key, []):
+                    self.count('resurrection_pairs_checked')
+                    if u2 == uid and sel_step > end:
+                        rep('uid-resurrected',
+                            'lineage/validity %r: UID %d was removed (step '
+                            '%d) and is listed again by a selection that '
+                            'began at step %d (dump at step %d)'
+                            % (key, uid, end, sel_step, st))
+                        break
+        # a delivered message has a UID as soon as any command has looked at
+        # the mailbox: every UIDNEXT reported after the delivery must be above
+        for name, cid, dstep in self.deliveries:
+            lin = self.lin(name)
+            for (l2, val), lst in self.assign.items():
+                if l2 != lin:
+                    continue
+                uids = [a[2] for a in lst if a[3] == cid]
+                if not uids:
+                    continue
+                u = min(uids)
+                for s0, e0, nxt in self.uidnext.get((l2, val), []):
+                    self.count('delivery_uidnext_pairs_checked')
+                    if s0 > dstep and nxt <= u:
+                        rep('uidnext-not-above-delivered-message',
+                            'a message delivered at step %d has UID %d, but '
+                            'UIDNEXT %d was reported at steps %d-%d' % (
+                                dstep, u, nxt, s0, e0))
+                        break
         for key, lst in self.assign.items():
             by_uid: dict[int, tuple[int, int, int, bytes | None, str]] = {}
             fresh = [a for a in lst if a[4] in ('APPENDUID', 'COPYUID')]
@@ -170,6 +214,9 @@ async def do_copy(s: USession, dest: bytes, move: bool) -> None:
                 cid = s.hist.lookup(src, su)
                 s.ulog.add(dest, val, du, cid, r.step_call, r.step_ret,
                            'COPYUID')
+                sval = getattr(s, 'validity', None)
+                if move and sval is not None and dest != src:
+                    s.ulog.add_removed(src, sval, su, r.step_ret)
 
 
 async def do_select(s: USession, box: bytes) -> bool:
@@ -185,6 +232,7 @@ async def do_select(s: USession, box: bytes) -> bool:
     if val is not None and nxt is not None:
         s.ulog.add_uidnext(box, val, nxt, r.step_call, r.step_ret)
         s.validity = val        # type: ignore[attr-defined]
+        s.select_step = r.step_call     # type: ignore[attr-defined]
     return True
 
 
@@ -214,7 +262,27 @@ async def do_dump(s: USession) -> None:
             cid = content_id(u.data)
             s.ulog.add(box, val, u.data[b'UID'], cid, r.step_call,
                        r.step_ret, 'FETCH')
+            s.ulog.fresh_seen.setdefault((s.ulog.lin(box), val), []).append(
+                (u.data[b'UID'], getattr(s, 'select_step', 0), r.step_call))
             s.ulog.count('fetch_uid_content_pairs')
+
+
+def deliver(env: Any, s: USession, ulog: UidLog) -> None:
+    """A mail delivery agent drops a file into INBOX/new (no IMAP involved,
+    no UID-list record yet)."""
+    import os
+    from ..workload import make_msg
+    cid = s.hist.new_cid()
+    base = os.path.join(env.base_dir, 'testuser', 'new')
+    if not os.path.isdir(base):
+        return
+    name = '1700000000.V%dI%d.vfdeliver' % (s.conn.cid, s.hist.ncid)
+    tmp = os.path.join(env.base_dir, 'testuser', 'tmp', name)
+    with open(tmp, 'wb') as f:
+        f.write(make_msg(cid))
+    os.rename(tmp, os.path.join(base, name))
+    ulog.deliveries.append((b'INBOX', cid, getattr(s.conn.loop, 'steps', 0)))
+    ulog.count('deliveries')
 
 
 async def run_hist(spec: dict[str, Any], hist: History, ulog: UidLog) -> None:
@@ -262,6 +330,9 @@ async def run_hist(spec: dict[str, Any], hist: History, ulog: UidLog) -> None:
                                     % s.shadow.count)
                     await s.cmd(b'EXPUNGE')
                     await do_append(s, s.shadow.mailbox or b'INBOX')
+                elif r < 0.66 and env.kind == 'maildir':
+                    deliver(env, s, ulog)
+                    await do_status(s, b'INBOX')
                 elif r < 0.72:
                     await do_status(s, s.rng.choice(BOXES))
                 elif r < 0.84:
@@ -358,7 +429,8 @@ class C04(Check):
             # another session is a legitimate end of a session here
             if s.failed and aborted is None and s.failed != 'closed:bye':
                 aborted = 'session-' + s.failed
-        mine = ('uid-denotes-two-messages', 'uid-assigned-twice',
+        mine = ('uid-resurrected', 'uidnext-not-above-delivered-message',
+                'uid-denotes-two-messages', 'uid-assigned-twice',
                 'uid-not-increasing', 'uidnext-not-above-existing',
                 'uidnext-above-next-assigned', 'appenduid-count',
                 'copyuid-length-mismatch')
